@@ -12,6 +12,46 @@ jax = setup_jax(x64=True)
 from harness.rollout_cases import PREAMBLE, gen_rollout_case  # noqa: E402
 
 
+def real_policy_coherence(ck, quick):
+    """The hypothesis `coherent` of C04_ratio_one, checked for the stock MLPActorCriticPolicy: re-evaluating every stored sample
+    (observation, stored action, recorded mask, stored policy state) under the unchanged policy reproduces the stored value and
+    log-prob, i.e. the first PPO ratio is 1 - with and without action masks, discrete and bounded-Box actions."""
+    import equinox as eqx
+    import jax.numpy as jnp
+    import jax.random as jr
+    import numpy as np
+    from lerax.algorithm import PPO
+    from lerax.callback import CallbackList
+    from lerax.policy import MLPActorCriticPolicy
+    from harness.stubs import TabEnv, build_stack, random_tab
+    cb = CallbackList(callbacks=[])
+    rng = ck.rng
+    for idx in range(6 if quick else 40):
+        kind = ["masked", "unmasked", "box"][idx % 3]
+        spec = random_tab(rng, box_obs=False, box_action=(kind == "box"), mask=(kind == "masked"), trunc_rate=0.05, term_rate=0.15)
+        env = build_stack(TabEnv(spec), [["TimeLimit", 4]])
+        pol = MLPActorCriticPolicy(env=env, key=jr.key(idx), feature_size=4, feature_width=8, feature_depth=1, value_width=8, value_depth=1, action_width=8, action_depth=1)
+        N = 1 + idx % 2 * 2; T = 8
+        algo = PPO(num_envs=N, num_steps=T, num_epochs=1, num_batches=1)
+        ck.current_case = {"policy": "MLPActorCriticPolicy", "kind": kind, "spec": spec, "N": N, "T": T}
+        st = algo.reset(env, pol, key=jr.key(100 + idx), callback=cb)
+        if N == 1:
+            _, buf = eqx.filter_jit(lambda s, k: algo.collect_rollout(env, pol, s, cb, k))(st.step_state, jr.key(200 + idx))
+        else:
+            _, buf = eqx.filter_jit(lambda s, k: eqx.filter_vmap(algo.collect_rollout, in_axes=(None, None, eqx.if_array(0), None, 0))(env, pol, s, cb, jr.split(k, N)))(st.step_state, jr.key(200 + idx))
+            buf = buf.flatten_axes((0, 1))
+        _, values, log_probs, _ = jax.vmap(pol.evaluate_action)(buf.states, buf.observations, buf.actions, action_mask=buf.action_masks)
+        ratio = np.exp(np.asarray(log_probs) - np.asarray(buf.log_probs))
+        masked_steps = 0 if buf.action_masks is None else int(np.sum(~np.asarray(buf.action_masks).all(axis=-1)))
+        ck.case_seen(("mlp-coherence", idx, kind) if (kind != "masked" or masked_steps) else None)
+        ck.count("real_policy_coherence:" + kind); ck.count("real_policy_masked_steps", masked_steps)
+        if not (np.allclose(ratio, 1.0, rtol=1e-6, atol=1e-6) and np.allclose(np.asarray(values), np.asarray(buf.values), rtol=1e-6, atol=1e-6)):
+            ck.violations.append(Violation("impl-violates-property", f"C04/MLPActorCriticPolicy/reevaluation-{kind}",
+                                           "re-evaluating the stored samples under the unchanged policy does not reproduce the stored value / log-prob (first PPO ratio != 1)",
+                                           case={**ck.current_case, "first_ratios": ratio.tolist()[:16], "max_abs_ratio_minus_1": float(np.max(np.abs(ratio - 1.0)))}))
+    ck.current_case = None
+
+
 def body(ck):
     ck.rule = ("random finite MDPs (discrete observations; discrete or bounded-Box actions with out-of-bounds policy proposals; masks; inner truncation) under stacks of "
                "TimeLimit/reward/action wrappers x tabular stateful policies x T in 1..10 x N in 1..4 (N>1 vmapped exactly like iteration()); 40% key-free cases; "
@@ -32,6 +72,7 @@ def body(ck):
     def sig(i):
         m = metas[i]
         return "C04/collect_rollout/" + ("box" if m["box"] else "discrete")
+    real_policy_coherence(ck, quick)
     ck.classify(res, cj, sig_of=sig, relation="OnPolicy.collect (on_policy.py:185-217, 340-449) vs collect_rollout",
                 what="rollout buffer is not the faithful record of the interaction (stored action / value / log-prob / clipped execution / done / bootstrap / resets / masks)")
 
